@@ -214,4 +214,27 @@ theorem selectionsV_plain : ∀ ss : List Selection, Item.plainAll (selectionsV 
   | s :: ss => by simp [selectionsV, Item.plainAll, selectionV_plain s, selectionsV_plain ss]
 end
 
+/-! ### variable definitions -/
+
+theorem defaultV_up (d : Nat) (o : Option Value) :
+    defaultV (o.map (Value.mapLoc (locUp d))) = Item.upAll d (defaultV o) := by
+  cases o <;> simp [defaultV, Item.upAll, Item.up, valueV_up]
+
+theorem variableDefinitionV_up (d : Nat) (x : VariableDefinition) :
+    variableDefinitionV (x.mapLoc (locUp d)) = (variableDefinitionV x).up d := by
+  simp [variableDefinitionV, VariableDefinition.mapLoc, Item.up, Item.upAll, upAll_append, variableV_up, typeV_up,
+    defaultV_up, directivesV_up]
+
+theorem typeV_plain : ∀ t : TypeRef, (typeV t).plain = true
+  | .named t => by simp [typeV, namedTypeV_plain]
+  | .list t loc => by simp [typeV, Item.plain, Item.plainAll, typeV_plain t]
+  | .nonNull t loc => by simp [typeV, Item.plain, Item.plainAll, typeV_plain t]
+
+theorem defaultV_plain (o : Option Value) : Item.plainAll (defaultV o) = true := by
+  cases o <;> simp [defaultV, Item.plainAll, Item.plain, valueV_plain]
+
+theorem variableDefinitionV_plain (x : VariableDefinition) : (variableDefinitionV x).plain = true := by
+  simp [variableDefinitionV, Item.plain, Item.plainAll, plainAll_append, variableV_plain, typeV_plain, defaultV_plain,
+    directivesV_plain]
+
 end PyGql.Spec
